@@ -63,6 +63,7 @@ template <class G> struct ConstOp {
     std::string name;
     std::function<std::string(const G &, int)> fn; // (shared graph, thread id) -> serialised result
     bool core;                                     // member of the fine-grained core
+    bool seq = false;                              // composite "a ; b" (two const calls by the same thread, a switch point between)
 };
 
 template <class G> std::vector<ConstOp<G>> constOps() {
@@ -237,6 +238,31 @@ template <class G> std::vector<ConstOp<G>> constOps() {
             return s;
         });
     }
+    // composites: two const calls in a row by the same thread (state that is only shared after a particular
+    // sequence of const calls), over a reduced core
+    std::vector<size_t> seqCore;
+    for (size_t i = 0; i < ops.size(); ++i) {
+        const std::string &n = ops[i].name;
+        if (n == "key(all getters)" || n == "edges()" || n == "getAdjacencyMatrix" || n == "getInDegrees" || n == "getDegrees" || n == "getReversedGraph" || n == "getDirectedGraph" ||
+            n == "findAllVertexPredecessors" || n == "writeTextEdgeList" || n == "getWeightMatrix+total" || n == "findGeodesicsDijkstra" || n == "getEdgeMultiplicity+total" || n == "asLabeledGraph searches")
+            seqCore.push_back(i);
+    }
+    size_t base = ops.size();
+    for (size_t a : seqCore)
+        for (size_t b : seqCore) {
+            auto fa = ops[a].fn, fb = ops[b].fn;
+            ConstOp<G> c;
+            c.name = ops[a].name + " ; " + ops[b].name;
+            c.fn = [fa, fb](const G &g, int tid) {
+                std::string r = fa(g, tid);
+                sch_point();
+                return r + "||" + fb(g, tid);
+            };
+            c.core = false;
+            c.seq = true;
+            ops.push_back(c);
+        }
+    (void)base;
     return ops;
 }
 
@@ -389,6 +415,7 @@ template <class G> struct Harness {
         }
     }
 
+    bool seqOnly = false;
     void all(bool coreOnly, int nThreads) {
         for (int shape = 0; shape < 4; ++shape) {
             // baseline on ANOTHER, identically built object; never on the shared one
@@ -398,7 +425,7 @@ template <class G> struct Harness {
             std::string freshKey = keyOf(makeShape<G>(shape), false);
             std::vector<int> idx;
             for (int i = 0; i < (int)ops.size(); ++i)
-                if (!coreOnly || ops[i].core) idx.push_back(i);
+                if (seqOnly ? ops[i].seq : (!ops[i].seq && (!coreOnly || ops[i].core))) idx.push_back(i);
             std::vector<int> tuple(nThreads, 0);
             // all multisets of size nThreads
             std::function<void(int, int)> rec = [&](int pos, int from) {
@@ -449,6 +476,8 @@ template <class G> int runOne(const std::string &name, const Args &args) {
             for (auto &x : v.second) printf("REPRODUCED %s: %s\n", x.signature.c_str(), x.detail.c_str());
         return rep.violations() ? 1 : 0;
     }
+    h.seqOnly = args.has("seq");
+    if (h.seqOnly) { rep.config += "/seq"; h.cfgName = rep.config; }
     h.all(args.has("core"), nThreads);
     rep.count("executions", (long long)h.executions);
     rep.count("switch_points", (long long)h.pointsTotal);
